@@ -161,17 +161,17 @@ theorem httpHeaders_gen : ∀ (fuel total : Nat) (r : HttpReq) (st : HttpSt), PI
 /-- HTTP: no byte stream and no segmentation makes the connection model reach an undefined
 operation; the recursion budgets of the model suffice -/
 theorem httpConn_safe (lim : Limits) (hl : LimitsOk lim) :
-    ∀ (fuel : Nat) (hints : List Bool) (st : HttpSt), st.view.length < fuel →
-      ∀ o ∈ httpConn lim cfg fuel hints st, isCrash o = false := by
+    ∀ (fuel : Nat) (hints : List Bool) (t0 : Nat) (st : HttpSt), st.view.length < fuel →
+      ∀ o ∈ httpConn lim cfg fuel hints t0 st, isCrash o = false := by
   intro fuel
   induction fuel with
-  | zero => intro hints st hf; omega
+  | zero => intro hints t0 st hf; omega
   | succ fuel ih =>
-    intro hints st hf
+    intro hints t0 st hf
     unfold httpConn
-    have hgen := httpHeaders_gen cfg (httpStreamFuel st) 0 { env := httpEnv0 cfg } st pinv_init (httpStreamFuel_ok st)
+    have hgen := httpHeaders_gen cfg (httpStreamFuel st) t0 { env := httpEnv0 cfg } st pinv_init (httpStreamFuel_ok st)
     obtain ⟨hs1, hs2⟩ := hdrFlat_safe cfg { env := httpEnv0 cfg } st.view pinv_init
-    cases hh : httpHeaders cfg (httpStreamFuel st) 0 { env := httpEnv0 cfg } st with
+    cases hh : httpHeaders cfg (httpStreamFuel st) t0 { env := httpEnv0 cfg } st with
     | mk res st1 =>
       rw [hh] at hgen
       simp only at hgen
@@ -214,7 +214,7 @@ theorem httpConn_safe (lim : Limits) (hl : LimitsOk lim) :
               simp only [List.mem_cons] at ho'
               rcases ho' with rfl | ho'
               · exact hsafe
-              · exact ih hints.tail st2 (by omega) o' ho'
+              · exact ih hints.tail _ st2 (by omega) o' ho'
             · intro o' ho'
               simp at ho'
               subst ho'
